@@ -1,4 +1,10 @@
-/- Helper lemmas for C18 (coverage accounting). -/
+/- Helper lemmas for C18 (coverage accounting).
+
+   Proof idea: the loop state matrix is always `M m pats l` for a list `l` of
+   (example, live frequency) pairs; zeroing the rows hit by pattern `k` is
+   `kill m k l` (set the live frequency to 0).  `loopL_succ` unfolds one
+   iteration in these terms, `loopL_ind` / `loopL_total` are the induction
+   principles (partial / total correctness) used by all C18 theorems. -/
 import TddaVerif.Model.Coverage
 
 namespace TddaVerif.Props.C18.Lemmas
@@ -6,16 +12,630 @@ open TddaVerif.Coverage
 
 theorem coverage_exact (row : List (Bool × Nat)) :
     rexCoverage1 false row = ((row.filter (·.1)).map (·.2)).sum := by
-  sorry
+  induction row with
+  | nil => rfl
+  | cons a t ih =>
+    obtain ⟨b, n⟩ := a
+    cases b <;> simp_all [rexCoverage1]
 
 theorem coverage_dedup_exact (row : List (Bool × Nat)) :
     rexCoverage1 true row = (row.filter (·.1)).length := by
-  sorry
+  induction row with
+  | nil => rfl
+  | cons a t ih =>
+    obtain ⟨b, n⟩ := a
+    cases b <;> simp_all [rexCoverage1] <;> omega
 
+/-! ### listMax / firstGE -/
+
+theorem foldl_max_ge (l : List Nat) (a : Nat) : a ≤ l.foldl max a := by
+  induction l generalizing a with
+  | nil => simp
+  | cons x xs ih => simp only [List.foldl_cons]; have := ih (max a x); omega
+
+theorem foldl_max_mem_ge (l : List Nat) (a x : Nat) (hx : x ∈ l) : x ≤ l.foldl max a := by
+  induction l generalizing a with
+  | nil => simp at hx
+  | cons y ys ih =>
+    simp only [List.foldl_cons]
+    rcases List.mem_cons.1 hx with rfl | h
+    · have := foldl_max_ge ys (max a x); omega
+    · exact ih _ h
+
+theorem foldl_max_mem (l : List Nat) (a : Nat) : l.foldl max a = a ∨ l.foldl max a ∈ l := by
+  induction l generalizing a with
+  | nil => simp
+  | cons y ys ih =>
+    simp only [List.foldl_cons]
+    rcases ih (max a y) with h | h
+    · rw [h]
+      by_cases hay : a ≤ y
+      · right; rw [Nat.max_eq_right hay]; exact List.mem_cons_self
+      · left; omega
+    · right; exact List.mem_cons_of_mem _ h
+
+theorem le_listMax {l : List Nat} {x : Nat} (hx : x ∈ l) : x ≤ listMax l :=
+  foldl_max_mem_ge l 0 x hx
+
+theorem listMax_mem {l : List Nat} (h : 0 < listMax l) : listMax l ∈ l := by
+  rcases foldl_max_mem l 0 with h' | h'
+  · unfold listMax at h; omega
+  · exact h'
+
+theorem firstGE_spec (l : List Nat) (t : Nat) (h : ∃ x ∈ l, t ≤ x) :
+    firstGE l t < l.length ∧ t ≤ l.getD (firstGE l t) 0 := by
+  induction l with
+  | nil => simp at h
+  | cons y ys ih =>
+    simp only [firstGE]
+    split
+    · next hlt =>
+      have : ∃ x ∈ ys, t ≤ x := by
+        obtain ⟨x, hx, hxt⟩ := h
+        rcases List.mem_cons.1 hx with rfl | hx'
+        · omega
+        · exact ⟨x, hx', hxt⟩
+      have := ih this
+      simpa using this
+    · next hge => simp; omega
+
+theorem firstGE_listMax (l : List Nat) (h : 0 < listMax l) :
+    firstGE l (listMax l) < l.length ∧ l.getD (firstGE l (listMax l)) 0 = listMax l := by
+  have hm := listMax_mem h
+  have := firstGE_spec l (listMax l) ⟨_, hm, Nat.le_refl _⟩
+  refine ⟨this.1, ?_⟩
+  have h2 : l.getD (firstGE l (listMax l)) 0 ≤ listMax l := by
+    apply le_listMax
+    rw [List.getD_eq_getElem?_getD, List.getElem?_eq_getElem this.1]
+    simp
+  omega
+
+/-- pigeonhole: a duplicate-free sublist-as-set of `l₂` that is at least as long covers `l₂`. -/
+theorem subset_of_nodup_length_le {α} [DecidableEq α] {l₁ l₂ : List α} (h₁ : l₁.Nodup)
+    (hsub : l₁ ⊆ l₂) (hlen : l₂.length ≤ l₁.length) : l₂ ⊆ l₁ := by
+  induction l₁ generalizing l₂ with
+  | nil => 
+    have : l₂ = [] := List.eq_nil_of_length_eq_zero (by simpa using hlen)
+    simp [this]
+  | cons a t ih =>
+    rw [List.nodup_cons] at h₁
+    have ha : a ∈ l₂ := hsub List.mem_cons_self
+    have htsub : t ⊆ l₂.erase a := by
+      intro x hx
+      have hxa : x ≠ a := fun h => h₁.1 (h ▸ hx)
+      exact (List.mem_erase_of_ne hxa).2 (hsub (List.mem_cons_of_mem _ hx))
+    have hl : (l₂.erase a).length = l₂.length - 1 := by rw [List.length_erase]; simp [ha]
+    have hih := ih h₁.2 htsub (by rw [hl]; simp at hlen; omega)
+    intro x hx
+    by_cases hxa : x = a
+    · simp [hxa]
+    · exact List.mem_cons_of_mem _ (hih ((List.mem_erase_of_ne hxa).2 hx))
+
+/-! ### The matrix as a function of the list of (example, live frequency) -/
+
+section Mat
+variable {α ε : Type _} (m : α → ε → Bool) (pats : List α)
+
+/-- matrix whose row for `(x, f)` is `f if pattern matches x else 0`. -/
+def M (l : List (ε × Nat)) : List (List Nat) :=
+  l.map (fun xf => pats.map (fun p => if m p xf.1 then xf.2 else 0))
+
+/-- column sum for pattern `k`. -/
+def cs (k : α) (l : List (ε × Nat)) : Nat :=
+  (l.map (fun xf => if m k xf.1 then xf.2 else 0)).sum
+
+def dd1 (l : List (ε × Nat)) : List (ε × Nat) :=
+  l.map (fun xf => (xf.1, if xf.2 ≠ 0 then 1 else 0))
+
+def kill (k : α) (l : List (ε × Nat)) : List (ε × Nat) :=
+  l.map (fun xf => (xf.1, if m k xf.1 then 0 else xf.2))
+
+/-- the sort key of pattern `k` -/
+def sk (sd : Bool) (k : α) (l : List (ε × Nat)) : Nat :=
+  if sd then cs m k (dd1 l) else cs m k l
+
+theorem matrixOf_bsOf (exs : List ε) (freqs : List Nat) :
+    matrixOf (bsOf m pats exs) freqs = M m pats (exs.zip freqs) := by
+  simp [matrixOf, bsOf, M, List.zip_map_left, List.map_map, Function.comp_def]
+
+theorem dedupOf_M (l : List (ε × Nat)) : dedupOf (M m pats l) = M m pats (dd1 l) := by
+  simp only [dedupOf, M, dd1, List.map_map, Function.comp_def]
+  congr 1; funext xf; congr 1; funext p
+  by_cases h : m p xf.1 = true <;> simp [h]
+
+theorem dd1_kill (k : α) (l : List (ε × Nat)) : dd1 (kill m k l) = kill m k (dd1 l) := by
+  simp only [dd1, kill, List.map_map, Function.comp_def]
+  congr 1; funext xf
+  by_cases h : m k xf.1 = true <;> simp [h]
+
+theorem colSum_M (l : List (ε × Nat)) {p : Nat} {k : α} (h : pats[p]? = some k) :
+    colSum (M m pats l) p = cs m k l := by
+  simp [colSum, M, cs, List.map_map, Function.comp_def, List.getD_eq_getElem?_getD, h]
+
+theorem length_totals (mx : List (List Nat)) (np : Nat) : (totals mx np).length = np := by
+  simp [totals]
+
+theorem totals_M (l : List (ε × Nat)) :
+    totals (M m pats l) pats.length = pats.map (fun k => cs m k l) := by
+  apply List.ext_getElem
+  · simp [totals]
+  · intro i h1 h2
+    simp only [totals, List.getElem_map, List.getElem_range]
+    apply colSum_M
+    simp at h2
+    simp [h2]
+
+theorem zeroRows_M (l : List (ε × Nat)) {p : Nat} {k : α} (h : pats[p]? = some k) :
+    zeroRows (M m pats l) (M m pats l) p pats.length = M m pats (kill m k l) := by
+  simp only [zeroRows, M, kill, List.zip_map', List.map_map, Function.comp_def]
+  apply List.map_congr_left
+  intro xf _
+  simp only [List.getD_eq_getElem?_getD, List.getElem?_map, h, Option.map_some, Option.getD_some]
+  by_cases hk : m k xf.1 = true
+  · simp only [hk, if_true]
+    by_cases hf : xf.2 = 0
+    · simp [hf]
+    · simp [hf, List.map_const']
+  · simp [hk]
+
+theorem dedupOf_zeroRows (mx : List (List Nat)) (p np : Nat) :
+    dedupOf (zeroRows mx mx p np) = zeroRows mx (dedupOf mx) p np := by
+  simp only [dedupOf, zeroRows, List.map_map, Function.comp_def, List.zip_map_right]
+  apply List.map_congr_left
+  intro rr _
+  by_cases h : rr.1[p]?.getD 0 = 0 <;> simp [h]
+
+theorem cs_eq_zero_iff (k : α) (l : List (ε × Nat)) :
+    cs m k l = 0 ↔ ∀ xf ∈ l, m k xf.1 = true → xf.2 = 0 := by
+  simp only [cs, List.sum_eq_zero_iff_forall_eq_nat, List.mem_map]
+  constructor
+  · intro h xf hxf hm
+    have := h _ ⟨xf, hxf, rfl⟩
+    simpa [hm] using this
+  · rintro h _ ⟨xf, hxf, rfl⟩
+    by_cases hm : m k xf.1 = true
+    · simp [hm, h xf hxf hm]
+    · simp [hm]
+
+theorem cs_dd1_eq_zero_iff (k : α) (l : List (ε × Nat)) :
+    cs m k (dd1 l) = 0 ↔ ∀ xf ∈ l, m k xf.1 = true → xf.2 = 0 := by
+  rw [cs_eq_zero_iff]
+  simp only [dd1, List.mem_map]
+  constructor
+  · intro h xf hxf hm
+    have := h _ ⟨xf, hxf, rfl⟩ hm
+    simpa using this
+  · rintro h _ ⟨xf, hxf, rfl⟩ hm
+    simp [h xf hxf hm]
+
+theorem sk_eq_zero_iff (sd : Bool) (k : α) (l : List (ε × Nat)) :
+    sk m sd k l = 0 ↔ ∀ xf ∈ l, m k xf.1 = true → xf.2 = 0 := by
+  unfold sk; split
+  · exact cs_dd1_eq_zero_iff m k l
+  · exact cs_eq_zero_iff m k l
+
+theorem cs_kill_le (k k' : α) (l : List (ε × Nat)) : cs m k' (kill m k l) ≤ cs m k' l := by
+  induction l with
+  | nil => simp [cs, kill]
+  | cons a t ih =>
+    simp only [cs, kill, List.map_cons, List.sum_cons] at ih ⊢
+    have : (if m k' a.1 = true then (if m k a.1 = true then 0 else a.2) else 0)
+        ≤ (if m k' a.1 = true then a.2 else 0) := by
+      split
+      · split <;> omega
+      · omega
+    omega
+
+theorem sk_kill_le (sd : Bool) (k k' : α) (l : List (ε × Nat)) :
+    sk m sd k' (kill m k l) ≤ sk m sd k' l := by
+  unfold sk; split
+  · rw [dd1_kill]; exact cs_kill_le m k k' _
+  · exact cs_kill_le m k k' l
+
+theorem kill_zero (k : α) (l : List (ε × Nat)) :
+    ∀ xf ∈ kill m k l, m k xf.1 = true → xf.2 = 0 := by
+  simp only [kill, List.mem_map]
+  rintro _ ⟨xf, _, rfl⟩ hm
+  simp at hm; simp [hm]
+
+theorem kill_zero_of_zero (k k' : α) (l : List (ε × Nat))
+    (h : ∀ xf ∈ l, m k' xf.1 = true → xf.2 = 0) :
+    ∀ xf ∈ kill m k l, m k' xf.1 = true → xf.2 = 0 := by
+  simp only [kill, List.mem_map]
+  rintro _ ⟨xf, hxf, rfl⟩ hm
+  have := h xf hxf hm
+  simp [this]
+
+end Mat
+
+/-! ### One unfolding of the loop -/
+
+section Loop
+variable {α ε : Type _} [DecidableEq α] (m : α → ε → Bool) (pats : List α)
+  (idx pf pu : List Nat) (sd : Bool)
+
+/-- the loop started from the matrix of `l` -/
+def loopL (fuel : Nat) (l : List (ε × Nat)) (res : List (α × Cov)) : Option (List (α × Cov)) :=
+  incrLoop pats idx pf pu sd fuel (M m pats l) (dedupOf (M m pats l)) res
+
+def entry (p : Nat) (k : α) (l : List (ε × Nat)) : α × Cov :=
+  (k, { n := pf.getD p 0, nUniq := pu.getD p 0, incr := cs m k l, incrUniq := cs m k (dd1 l),
+        index := idx.getD p 0 })
+
+omit [DecidableEq α] in
+theorem sortTotals_eq (l : List (ε × Nat)) :
+    (if sd = true then totals (dedupOf (M m pats l)) pats.length else totals (M m pats l) pats.length)
+      = pats.map (fun k => sk m sd k l) := by
+  cases sd <;> simp [sk, dedupOf_M, totals_M]
+
+theorem loopL_succ (fuel : Nat) (l : List (ε × Nat)) (res : List (α × Cov)) :
+    (loopL m pats idx pf pu sd (fuel + 1) l res = some res ∧
+        (pats.length ≤ res.length ∨ ∀ k ∈ pats, sk m sd k l = 0))
+    ∨ (res.length < pats.length ∧ ∃ p k, pats[p]? = some k ∧ 0 < sk m sd k l ∧
+        (∀ k' ∈ pats, sk m sd k' l ≤ sk m sd k l) ∧
+        loopL m pats idx pf pu sd (fuel + 1) l res =
+          if k ∈ keys res then loopL m pats idx pf pu sd fuel l res
+          else loopL m pats idx pf pu sd fuel (kill m k l) (res ++ [entry m idx pf pu p k l])) := by
+  unfold loopL
+  simp only [incrLoop]
+  rw [sortTotals_eq]
+  by_cases hlen : res.length < pats.length
+  · by_cases ht : 0 < listMax (pats.map (fun k => sk m sd k l))
+    · right
+      obtain ⟨hp, hv⟩ := firstGE_listMax _ ht
+      generalize firstGE (pats.map (fun k => sk m sd k l)) (listMax (pats.map (fun k => sk m sd k l))) = p at hp hv ⊢
+      have hp' : p < pats.length := by simpa using hp
+      have hk : pats[p]? = some pats[p] := List.getElem?_eq_getElem hp'
+      have hv' : sk m sd pats[p] l = listMax (pats.map (fun k => sk m sd k l)) := by
+        rw [← hv]; simp [List.getD_eq_getElem?_getD, hk]
+      refine ⟨hlen, p, pats[p], hk, ?_, ?_, ?_⟩
+      · omega
+      · intro k' hk'
+        rw [hv']
+        exact le_listMax (List.mem_map.2 ⟨k', hk', rfl⟩)
+      · simp only [hlen, ht, if_true, hk]
+        rw [← dedupOf_zeroRows, zeroRows_M m pats l hk, dedupOf_M, totals_M, totals_M]
+        simp [entry, List.getD_eq_getElem?_getD, hk]
+    · left
+      simp only [hlen, ht, if_true, if_false, true_and]
+      right
+      intro k hk
+      have := le_listMax (List.mem_map.2 ⟨k, hk, rfl⟩ : sk m sd k l ∈ pats.map (fun k => sk m sd k l))
+      omega
+  · left
+    simp only [hlen, if_false, true_and]
+    left; omega
+
+end Loop
+
+/-! ### Induction principles for the loop -/
+
+section LoopInd
+variable {α ε : Type _} [DecidableEq α] (m : α → ε → Bool) (pats : List α)
+  (idx pf pu : List Nat) (sd : Bool)
+
+/-- partial correctness: an invariant preserved by productive steps holds at exit,
+    together with the exit condition. -/
+theorem loopL_ind (P : List (ε × Nat) → List (α × Cov) → Prop)
+    (hstep : ∀ l res p k, P l res → res.length < pats.length → pats[p]? = some k → k ∉ keys res →
+      0 < sk m sd k l → (∀ k' ∈ pats, sk m sd k' l ≤ sk m sd k l) →
+      P (kill m k l) (res ++ [entry m idx pf pu p k l])) :
+    ∀ fuel l res r, P l res → loopL m pats idx pf pu sd fuel l res = some r →
+      ∃ l', P l' r ∧ (pats.length ≤ r.length ∨ ∀ k ∈ pats, sk m sd k l' = 0) := by
+  intro fuel
+  induction fuel with
+  | zero => intro l res r _ h; simp [loopL, incrLoop] at h
+  | succ n ih =>
+    intro l res r hP h
+    rcases loopL_succ m pats idx pf pu sd n l res with ⟨h1, h2⟩ | ⟨hlen, p, k, hk, hpos, hmax, heq⟩
+    · rw [h1] at h; cases h; exact ⟨l, hP, h2⟩
+    · rw [heq] at h
+      by_cases hmem : k ∈ keys res
+      · rw [if_pos hmem] at h; exact ih l res r hP h
+      · rw [if_neg hmem] at h
+        exact ih _ _ r (hstep l res p k hP hlen hk hmem hpos hmax) h
+
+/-- total correctness: if moreover the sort key of every recorded pattern is zero,
+    enough fuel always yields a result. -/
+theorem loopL_total (P : List (ε × Nat) → List (α × Cov) → Prop)
+    (hstep : ∀ l res p k, P l res → res.length < pats.length → pats[p]? = some k → k ∉ keys res →
+      0 < sk m sd k l → (∀ k' ∈ pats, sk m sd k' l ≤ sk m sd k l) →
+      P (kill m k l) (res ++ [entry m idx pf pu p k l]))
+    (hkey : ∀ l res k, P l res → k ∈ keys res → sk m sd k l = 0) :
+    ∀ fuel l res, P l res → 1 ≤ fuel → pats.length + 1 ≤ fuel + res.length →
+      ∃ r, loopL m pats idx pf pu sd fuel l res = some r := by
+  intro fuel
+  induction fuel with
+  | zero => intro l res _ h; omega
+  | succ n ih =>
+    intro l res hP _ hfuel
+    rcases loopL_succ m pats idx pf pu sd n l res with ⟨h1, _⟩ | ⟨hlen, p, k, hk, hpos, hmax, heq⟩
+    · exact ⟨res, h1⟩
+    · rw [heq]
+      by_cases hmem : k ∈ keys res
+      · have := hkey l res k hP hmem; omega
+      · rw [if_neg hmem]
+        apply ih _ _ (hstep l res p k hP hlen hk hmem hpos hmax)
+        · omega
+        · simp; omega
+
+/-- every recorded pattern has only dead rows left -/
+def Dead (l : List (ε × Nat)) (res : List (α × Cov)) : Prop :=
+  ∀ k ∈ keys res, ∀ xf ∈ l, m k xf.1 = true → xf.2 = 0
+
+omit [DecidableEq α] in
+theorem keys_append (res : List (α × Cov)) (e : α × Cov) : keys (res ++ [e]) = keys res ++ [e.1] := by
+  simp [keys]
+
+omit [DecidableEq α] in
+theorem Dead.step {l : List (ε × Nat)} {res : List (α × Cov)} (h : Dead m l res) (k : α) (c : Cov) :
+    Dead m (kill m k l) (res ++ [(k, c)]) := by
+  intro k' hk'
+  rw [keys_append, List.mem_append] at hk'
+  rcases hk' with hk' | hk'
+  · exact kill_zero_of_zero m k k' l (h k' hk')
+  · simp at hk'; subst hk'; exact kill_zero m k' l
+
+theorem fullIncr_eq (exs : List ε) (freqs : List Nat) :
+    fullIncr pats idx (bsOf m pats exs) freqs sd =
+      loopL m pats idx (totals (M m pats (exs.zip freqs)) pats.length)
+        (totals (dedupOf (M m pats (exs.zip freqs))) pats.length) sd (pats.length + 1)
+        (exs.zip freqs) [] := by
+  simp only [fullIncr, matrices2incr, matrixOf_bsOf, loopL]
+
+end LoopInd
+
+set_option linter.unusedVariables false in
 theorem incr_terminates {α ε} [DecidableEq α] (m : α → ε → Bool) (pats : List α) (idx : List Nat)
     (exs : List ε) (freqs : List Nat) (hlen : freqs.length = exs.length) (sd : Bool) :
     ∃ r, fullIncr pats idx (bsOf m pats exs) freqs sd = some r := by
-  sorry
+  rw [fullIncr_eq]
+  apply loopL_total m pats idx _ _ sd (Dead m)
+  · intro l res p k hP _ _ _ _ _
+    exact hP.step m k _
+  · intro l res k hP hk
+    exact (sk_eq_zero_iff m sd k l).2 (hP k hk)
+  · intro k hk; simp [keys] at hk
+  · omega
+  · simp
+
+/-! ### Non-increasing order -/
+
+section Order
+variable {α ε : Type _} [DecidableEq α] (m : α → ε → Bool) (pats : List α)
+  (idx pf pu : List Nat) (sd : Bool)
+
+def ckey (kc : α × Cov) : Nat := if sd then kc.2.incrUniq else kc.2.incr
+
+omit [DecidableEq α] in
+theorem ckey_entry (p : Nat) (k : α) (l : List (ε × Nat)) :
+    ckey sd (entry m idx pf pu p k l) = sk m sd k l := by
+  cases sd <;> simp [ckey, entry, sk]
+
+theorem loopL_nonincreasing (fuel : Nat) (l : List (ε × Nat)) (r : List (α × Cov))
+    (h : loopL m pats idx pf pu sd fuel l [] = some r) :
+    (r.map (ckey sd)).Pairwise (· ≥ ·) := by
+  obtain ⟨l', hP, _⟩ := loopL_ind m pats idx pf pu sd
+    (fun l res => (res.map (ckey sd)).Pairwise (· ≥ ·) ∧
+      ∀ kc ∈ res, ∀ k' ∈ pats, sk m sd k' l ≤ ckey sd kc)
+    (by
+      intro l res p k ⟨h1, h2⟩ _ hk _ _ hmax
+      have hkp : k ∈ pats := List.mem_of_getElem? hk
+      refine ⟨?_, ?_⟩
+      · rw [List.map_append, List.pairwise_append]
+        refine ⟨h1, by simp, ?_⟩
+        intro a ha b hb
+        simp only [List.map_cons, List.map_nil, List.mem_singleton] at hb
+        obtain ⟨kc, hkc, rfl⟩ := List.mem_map.1 ha
+        rw [hb, ckey_entry]
+        exact h2 kc hkc k hkp
+      · intro kc hkc k' hk'
+        rcases List.mem_append.1 hkc with hkc | hkc
+        · exact Nat.le_trans (sk_kill_le m sd k k' l) (h2 kc hkc k' hk')
+        · simp only [List.mem_singleton] at hkc
+          rw [hkc, ckey_entry]
+          exact Nat.le_trans (sk_kill_le m sd k k' l) (hmax k' hk'))
+    fuel l [] r ⟨by simp, by simp⟩ h
+  exact hP.1
+
+end Order
+
+set_option linter.unusedVariables false in
+theorem incr_nonincreasing {α ε} [DecidableEq α] (m : α → ε → Bool) (pats : List α) (idx : List Nat)
+    (exs : List ε) (freqs : List Nat) (hlen : freqs.length = exs.length) (sd : Bool)
+    (r : List (α × Cov))
+    (h : fullIncr pats idx (bsOf m pats exs) freqs sd = some r) :
+    (r.map (fun kc => if sd then kc.2.incrUniq else kc.2.incr)).Pairwise (· ≥ ·) := by
+  rw [fullIncr_eq] at h
+  exact loopL_nonincreasing m pats idx _ _ sd _ _ r h
+
+/-! ### Field exactness -/
+
+section Fields
+variable {α ε : Type _} [DecidableEq α] (m : α → ε → Bool) (pats : List α)
+  (idx : List Nat) (sd : Bool)
+
+theorem loopL_fields (fuel : Nat) (l0 l : List (ε × Nat)) (r : List (α × Cov))
+    (h : loopL m pats idx (totals (M m pats l0) pats.length)
+      (totals (dedupOf (M m pats l0)) pats.length) sd fuel l [] = some r) :
+    (keys r).Nodup ∧ ∀ kc ∈ r, kc.1 ∈ pats ∧ kc.2.n = cs m kc.1 l0 ∧
+      kc.2.nUniq = cs m kc.1 (dd1 l0) := by
+  obtain ⟨l', hP, _⟩ := loopL_ind m pats idx _ _ sd
+    (fun _ res => (keys res).Nodup ∧ ∀ kc ∈ res, kc.1 ∈ pats ∧ kc.2.n = cs m kc.1 l0 ∧
+      kc.2.nUniq = cs m kc.1 (dd1 l0))
+    (by
+      intro l res p k ⟨h1, h2⟩ _ hk hmem _ _
+      have hkp : k ∈ pats := List.mem_of_getElem? hk
+      refine ⟨?_, ?_⟩
+      · rw [keys_append, List.nodup_append]
+        refine ⟨h1, by simp, ?_⟩
+        intro a ha b hb
+        simp only [entry, List.mem_singleton] at hb
+        rintro rfl; exact hmem (hb ▸ ha)
+      · intro kc hkc
+        rcases List.mem_append.1 hkc with hkc | hkc
+        · exact h2 kc hkc
+        · simp only [List.mem_singleton] at hkc
+          subst hkc
+          refine ⟨hkp, ?_, ?_⟩
+          · simp [entry, totals_M, List.getD_eq_getElem?_getD, hk]
+          · simp [entry, dedupOf_M, totals_M, List.getD_eq_getElem?_getD, hk])
+    fuel l [] r ⟨by simp [keys], by simp⟩ h
+  exact hP
+
+end Fields
+
+theorem cs_zip_eq {α ε} (m : α → ε → Bool) (k : α) (exs : List ε) (freqs : List Nat) :
+    cs m k (exs.zip freqs) = rexCoverage1 false ((exs.map (m k)).zip freqs) := by
+  simp [cs, rexCoverage1, List.zip_map_left, List.map_map, Function.comp_def]
+
+theorem cs_dd1_zip_eq {α ε} (m : α → ε → Bool) (k : α) (exs : List ε) (freqs : List Nat)
+    (hpos : ∀ f ∈ freqs, 0 < f) :
+    cs m k (dd1 (exs.zip freqs)) = rexCoverage1 true ((exs.map (m k)).zip freqs) := by
+  simp only [cs, dd1, rexCoverage1, List.zip_map_left, List.map_map, Function.comp_def]
+  congr 1
+  apply List.map_congr_left
+  rintro ⟨x, f⟩ hxf
+  have := hpos f (List.of_mem_zip hxf).2
+  have hf : f ≠ 0 := by omega
+  simp [hf]
+
+set_option linter.unusedVariables false in
+theorem incr_fields_exact {α ε} [DecidableEq α] (m : α → ε → Bool) (pats : List α) (idx : List Nat)
+    (exs : List ε) (freqs : List Nat) (hlen : freqs.length = exs.length)
+    (hpos : ∀ f ∈ freqs, 0 < f) (sd : Bool)
+    (r : List (α × Cov))
+    (h : fullIncr pats idx (bsOf m pats exs) freqs sd = some r) :
+    (keys r).Nodup ∧
+    ∀ kc ∈ r, kc.1 ∈ pats ∧
+      kc.2.n = rexCoverage1 false ((exs.map (m kc.1)).zip freqs) ∧
+      kc.2.nUniq = rexCoverage1 true ((exs.map (m kc.1)).zip freqs) := by
+  rw [fullIncr_eq] at h
+  obtain ⟨h1, h2⟩ := loopL_fields m pats idx sd _ _ _ r h
+  refine ⟨h1, fun kc hkc => ?_⟩
+  obtain ⟨ha, hb, hc⟩ := h2 kc hkc
+  exact ⟨ha, by rw [hb, cs_zip_eq], by rw [hc, cs_dd1_zip_eq _ _ _ _ hpos]⟩
+
+/-! ### The incremental counts add up -/
+
+section Sum
+variable {α ε : Type _} (m : α → ε → Bool) (pats : List α)
+
+/-- total live frequency of the examples matched by some pattern -/
+def alive (l : List (ε × Nat)) : Nat :=
+  (l.map (fun xf => if pats.any (fun p => m p xf.1) then xf.2 else 0)).sum
+
+theorem alive_kill {k : α} (hk : k ∈ pats) (l : List (ε × Nat)) :
+    alive m pats l = cs m k l + alive m pats (kill m k l) := by
+  induction l with
+  | nil => simp [alive, cs, kill]
+  | cons a t ih =>
+    simp only [alive, cs, kill, List.map_cons, List.sum_cons] at ih ⊢
+    by_cases hm : m k a.1 = true
+    · have hany : pats.any (fun p => m p a.1) = true := List.any_eq_true.2 ⟨k, hk, hm⟩
+      simp only [hm, hany, if_true]
+      omega
+    · have hm' : m k a.1 = false := by simpa using hm
+      simp only [hm', Bool.false_eq_true, if_false]
+      omega
+
+/-- every row matched by some pattern is dead -/
+def AllDead (l : List (ε × Nat)) : Prop :=
+  ∀ k ∈ pats, ∀ xf ∈ l, m k xf.1 = true → xf.2 = 0
+
+theorem AllDead.alive_eq_zero {l : List (ε × Nat)} (h : AllDead m pats l) : alive m pats l = 0 := by
+  simp only [alive, List.sum_eq_zero_iff_forall_eq_nat, List.mem_map]
+  rintro _ ⟨xf, hxf, rfl⟩
+  split
+  · next hany =>
+    obtain ⟨k, hk, hm⟩ := List.any_eq_true.1 hany
+    exact h k hk xf hxf hm
+  · rfl
+
+theorem AllDead.dd1 {l : List (ε × Nat)} (h : AllDead m pats l) : AllDead m pats (dd1 l) := by
+  intro k hk xf hxf hm
+  simp only [Lemmas.dd1, List.mem_map] at hxf
+  obtain ⟨yf, hyf, rfl⟩ := hxf
+  simp [h k hk yf hyf hm]
+
+theorem alive_zip (exs : List ε) (freqs : List Nat) :
+    alive m pats (exs.zip freqs)
+      = (((exs.zip freqs).filter (fun xf => pats.any (fun p => m p xf.1))).map (·.2)).sum := by
+  unfold alive
+  induction exs.zip freqs with
+  | nil => rfl
+  | cons a t ih =>
+    by_cases h : pats.any (fun p => m p a.1) = true
+    · simp only [List.map_cons, List.sum_cons, List.filter_cons, h, if_true, ih]
+    · simp only [List.map_cons, List.sum_cons, List.filter_cons, h, if_false, ih,
+        Bool.false_eq_true, Nat.zero_add]
+
+theorem alive_dd1_zip (exs : List ε) (freqs : List Nat) (hlen : freqs.length = exs.length)
+    (hpos : ∀ f ∈ freqs, 0 < f) :
+    alive m pats (dd1 (exs.zip freqs))
+      = (exs.filter (fun x => pats.any (fun p => m p x))).length := by
+  induction exs generalizing freqs with
+  | nil => simp [alive, dd1]
+  | cons x xs ih =>
+    cases freqs with
+    | nil => simp at hlen
+    | cons f fs =>
+      have hf : f ≠ 0 := by have := hpos f List.mem_cons_self; omega
+      have ih' := ih fs (by simpa using hlen) (fun g hg => hpos g (List.mem_cons_of_mem _ hg))
+      simp only [alive, dd1, List.zip_cons_cons, List.map_cons, List.sum_cons] at ih' ⊢
+      by_cases h : pats.any (fun p => m p x) = true
+      · simp only [h, if_pos hf, List.filter_cons_of_pos, List.length_cons, if_true]
+        omega
+      · simp only [h, List.filter_cons_of_neg, if_false, Bool.false_eq_true, not_false_eq_true]
+        omega
+
+variable [DecidableEq α] (idx pf pu : List Nat) (sd : Bool)
+
+theorem loopL_sum (fuel : Nat) (l : List (ε × Nat)) (r : List (α × Cov))
+    (h : loopL m pats idx pf pu sd fuel l [] = some r) :
+    (r.map (·.2.incr)).sum = alive m pats l ∧
+    (r.map (·.2.incrUniq)).sum = alive m pats (dd1 l) := by
+  obtain ⟨l', ⟨hd, hn, hs, e1, e2⟩, hexit⟩ := loopL_ind m pats idx pf pu sd
+    (fun l' res => Dead m l' res ∧ (keys res).Nodup ∧ (∀ k ∈ keys res, k ∈ pats) ∧
+      (res.map (·.2.incr)).sum + alive m pats l' = alive m pats l ∧
+      (res.map (·.2.incrUniq)).sum + alive m pats (dd1 l') = alive m pats (dd1 l))
+    (by
+      intro l' res p k ⟨hd, hn, hs, e1, e2⟩ _ hk hmem _ _
+      have hkp : k ∈ pats := List.mem_of_getElem? hk
+      refine ⟨hd.step m k _, ?_, ?_, ?_, ?_⟩
+      · rw [keys_append, List.nodup_append]
+        refine ⟨hn, by simp, ?_⟩
+        intro a ha b hb
+        simp only [entry, List.mem_singleton] at hb
+        rintro rfl; exact hmem (hb ▸ ha)
+      · intro k' hk'
+        rw [keys_append, List.mem_append] at hk'
+        rcases hk' with hk' | hk'
+        · exact hs k' hk'
+        · simp only [entry, List.mem_singleton] at hk'; exact hk' ▸ hkp
+      · have := alive_kill m pats hkp l'
+        simp only [List.map_append, List.sum_append_nat, List.map_cons, List.map_nil,
+          List.sum_cons, List.sum_nil, entry]
+        omega
+      · have := alive_kill m pats hkp (dd1 l')
+        rw [← dd1_kill] at this
+        simp only [List.map_append, List.sum_append_nat, List.map_cons, List.map_nil,
+          List.sum_cons, List.sum_nil, entry]
+        omega)
+    fuel l [] r ⟨by intro k hk; simp [keys] at hk, by simp [keys], by simp [keys], by simp, by simp⟩ h
+  have hall : AllDead m pats l' := by
+    rcases hexit with hlen | hz
+    · have hsub : pats ⊆ keys r :=
+        subset_of_nodup_length_le hn (fun k hk => hs k hk) (by simpa [keys] using hlen)
+      intro k hk
+      exact hd k (hsub hk)
+    · intro k hk
+      exact (sk_eq_zero_iff m sd k l').1 (hz k hk)
+  have z1 := hall.alive_eq_zero
+  have z2 := hall.dd1.alive_eq_zero
+  omega
+
+end Sum
 
 theorem incr_sum_exact {α ε} [DecidableEq α] (m : α → ε → Bool) (pats : List α) (idx : List Nat)
     (exs : List ε) (freqs : List Nat) (hlen : freqs.length = exs.length)
@@ -25,23 +645,8 @@ theorem incr_sum_exact {α ε} [DecidableEq α] (m : α → ε → Bool) (pats :
         = (((exs.zip freqs).filter (fun xf => pats.any (fun p => m p xf.1))).map (·.2)).sum
     ∧ (r.map (·.2.incrUniq)).sum
         = (exs.filter (fun x => pats.any (fun p => m p x))).length := by
-  sorry
-
-theorem incr_nonincreasing {α ε} [DecidableEq α] (m : α → ε → Bool) (pats : List α) (idx : List Nat)
-    (exs : List ε) (freqs : List Nat) (hlen : freqs.length = exs.length) (sd : Bool)
-    (r : List (α × Cov))
-    (h : fullIncr pats idx (bsOf m pats exs) freqs sd = some r) :
-    (r.map (fun kc => if sd then kc.2.incrUniq else kc.2.incr)).Pairwise (· ≥ ·) := by
-  sorry
-
-theorem incr_fields_exact {α ε} [DecidableEq α] (m : α → ε → Bool) (pats : List α) (idx : List Nat)
-    (exs : List ε) (freqs : List Nat) (hlen : freqs.length = exs.length) (sd : Bool)
-    (r : List (α × Cov))
-    (h : fullIncr pats idx (bsOf m pats exs) freqs sd = some r) :
-    (keys r).Nodup ∧
-    ∀ kc ∈ r, kc.1 ∈ pats ∧
-      kc.2.n = rexCoverage1 false ((exs.map (m kc.1)).zip freqs) ∧
-      kc.2.nUniq = rexCoverage1 true ((exs.map (m kc.1)).zip freqs) := by
-  sorry
+  rw [fullIncr_eq] at h
+  obtain ⟨h1, h2⟩ := loopL_sum m pats idx _ _ sd _ _ r h
+  exact ⟨by rw [h1, alive_zip], by rw [h2, alive_dd1_zip m pats exs freqs hlen hpos]⟩
 
 end TddaVerif.Props.C18.Lemmas
